@@ -330,6 +330,82 @@ pub fn check_ops_from(ctx: &mut Ctx, start: u8, ops: &[Op], creds: &RefCreds) {
                 break;
             }
         }
+        // the same operations on a second builder that nobody looks at in between (no query, no
+        // serialisation until the end): being observed does not change a builder
+        let silent: Option<Vec<u8>> = if ops.len() >= 2 && (ops.len() + start as usize) % 2 == 0 && problems.is_empty() {
+            let mut b2: MessageBuilder = match start {
+                0 => new_builder(&p),
+                5..=7 => new_builder(&Program { class: start - 4, ..p.clone() }),
+                1 => Message::builder_success(&req),
+                2 => Message::builder_error(&req),
+                3 => Message::bad_request(&req),
+                _ => Message::unknown_attributes(&req, &[AttributeType::new(0x7f01), AttributeType::new(0x7f02)]),
+            };
+            let mut last2: Option<(bool, usize)> = None;
+            let mut n2 = if start == 0 || start >= 5 { 0usize } else { ref_parse(&b2.build()).attrs.len() };
+            for (step, op) in ops.iter().enumerate() {
+                let op = &(if matches!(op, Op::Dup) && last2.is_none() { Op::Raw(23) } else { *op });
+                let r: Result<(), StunWriteError> = match op {
+                    Op::Typed(i) => {
+                        let i = *i as usize % tpool.len();
+                        let r = b2.add_attribute(objs[i].as_ref());
+                        if r.is_ok() {
+                            last2 = Some((true, i));
+                        }
+                        r
+                    }
+                    Op::Raw(i) => {
+                        let i = *i as usize % rpool.len();
+                        let r = b2.add_raw_attribute(RawAttribute::new(AttributeType::new(rpool[i].0), &rpool[i].1));
+                        if r.is_ok() {
+                            last2 = Some((false, i));
+                        }
+                        r
+                    }
+                    Op::Dup => match last2 {
+                        Some((true, i)) if step % 2 == 0 => b2.add_attribute(objs[i].as_ref()),
+                        Some((true, i)) => b2.add_raw_attribute(RawAttribute::new(AttributeType::new(tpool[i].0.code()), &[1, 2, 3])),
+                        Some((false, i)) => b2.add_raw_attribute(RawAttribute::new(AttributeType::new(rpool[i].0), &[9])),
+                        None => unreachable!(),
+                    },
+                    Op::Sha1 => b2.add_message_integrity(&icreds, IntegrityAlgorithm::Sha1),
+                    Op::Sha256 => b2.add_message_integrity(&icreds, IntegrityAlgorithm::Sha256),
+                    Op::Sha256Other => b2.add_message_integrity(&icreds_other, IntegrityAlgorithm::Sha256),
+                    Op::Fp => b2.add_fingerprint(),
+                    Op::IntoOwned => {
+                        b2 = b2.into_owned();
+                        Err(StunWriteError::IntegrityFailed)
+                    }
+                    Op::Clone => {
+                        let c = b2.clone();
+                        b2 = c;
+                        Err(StunWriteError::IntegrityFailed)
+                    }
+                    Op::CloneFrom => {
+                        let mut dst = Message::builder(
+                            stun_types::message::MessageType::from_class_method(stun_types::message::MessageClass::Error, 0x7),
+                            imp::tid_from_bytes(&[0x99; 12]),
+                        );
+                        if step % 2 == 0 {
+                            for j in 0..(n2 + 3) {
+                                let _ = dst.add_raw_attribute(RawAttribute::new(AttributeType::new(0x6e00 + j as u16), &vec![j as u8; j % 5]).into_owned());
+                            }
+                            let _ = dst.add_message_integrity(&icreds_other, IntegrityAlgorithm::Sha1);
+                            let _ = dst.add_fingerprint();
+                        }
+                        dst.clone_from(&b2);
+                        b2 = dst;
+                        Err(StunWriteError::IntegrityFailed)
+                    }
+                };
+                if r.is_ok() {
+                    n2 += 1;
+                }
+            }
+            Some(b2.build())
+        } else {
+            None
+        };
         // the final state through the other serialisation paths as well (a caller's reused buffer,
         // the owned copy, a clone): "the serialised message is accepted by the parser with valid
         // integrity and fingerprint" holds for whatever path serialises it
@@ -346,6 +422,9 @@ pub fn check_ops_from(ctx: &mut Ctx, start: u8, ops: &[Op], creds: &RefCreds) {
             }
         }
         alts.push(("clone().build()", b.clone().build()));
+        if let Some(sb) = silent {
+            alts.push(("the same operations on a builder that is not looked at in between", sb));
+        }
         {
             let o = b.clone().into_owned();
             let mut dest = vec![0x5Au8; built.len()];
